@@ -302,7 +302,9 @@ func roundMappingCap(t vkit.TB, c Case) {
 		vkit.Case("known:"+class, true, fmt.Sprintf("%s|%d|%s|%s|%d", c.Kind, k, source, c.Mode, c.Feed))
 		return
 	}
-	if k == 0 && r.refused.Load() > 0 {
+	// a refusal is a connection that was never dialed through (a connection closed AFTER its tunnel
+	// was dialed - e.g. a tunnel ending early under load - is not a refusal)
+	if k == 0 && admitted < r.fed {
 		vkit.Violation(t, pfx+"refused-although-unlimited", detail, c)
 		return
 	}
@@ -326,7 +328,7 @@ func TestMappingCap(t *testing.T) {
 			}
 		}
 	}
-	vkit.Check(t, 960, 9600, func(t *rapid.T) {
+	vkit.Check(t, 1920, 14400, func(t *rapid.T) {
 		c := Case{Kind: "mapping-cap", Mode: rapid.SampledFrom([]string{"sequential", "concurrent", "concurrent"}).Draw(t, "mode"), Rounds: 50}
 		c.Limit = rapid.SampledFrom([]int{0, 1, 1, 3}).Draw(t, "limit")
 		c.Ops = []int{rapid.SampledFrom([]int{0, 0, 0, 1, 1, 1, 2}).Draw(t, "limitSource")}
